@@ -25,6 +25,13 @@ type absVal struct {
 var absUnknown = absVal{kind: "unknown"}
 
 func absEval(fn *ssa.Function, args []absVal, depth int) absVal {
+	return absEvalSeeded(fn, args, depth, nil, "")
+}
+
+// absEvalSeeded: like absEval; seed (when set) gives abstract values to instructions before they are
+// interpreted (used to abstract `a.K` / `b.K` of struct operands), and resultField (when set) makes the
+// result the value stored into that field of the returned struct instead of the returned value itself.
+func absEvalSeeded(fn *ssa.Function, args []absVal, depth int, seed func(ssa.Value) (absVal, bool), resultField string) absVal {
 	if depth > 4 || len(fn.Blocks) == 0 || len(args) != len(fn.Params) {
 		return absUnknown
 	}
@@ -65,6 +72,14 @@ func absEval(fn *ssa.Function, args []absVal, depth int) absVal {
 	var prev *ssa.BasicBlock
 	for steps := 0; steps < 64; steps++ {
 		for _, ins := range cur.Instrs {
+			if seed != nil {
+				if v, isV := ins.(ssa.Value); isV {
+					if a, ok := seed(v); ok {
+						env[v] = a
+						continue
+					}
+				}
+			}
 			switch x := ins.(type) {
 			case *ssa.Phi:
 				for i, p := range cur.Preds {
@@ -152,6 +167,14 @@ func absEval(fn *ssa.Function, args []absVal, depth int) absVal {
 		}
 		switch t := cur.Instrs[len(cur.Instrs)-1].(type) {
 		case *ssa.Return:
+			if resultField != "" {
+				for addr, v := range cells {
+					if fa, ok := addr.(*ssa.FieldAddr); ok && fieldName(fa) == resultField {
+						return v
+					}
+				}
+				return absUnknown
+			}
 			if len(t.Results) != 1 {
 				return absUnknown
 			}
@@ -358,6 +381,39 @@ func mergeStructSSA(e *Env, fname, tname string, st *types.Struct, pkPath string
 			continue
 		}
 		got, a, b := mergeExprClass(e, vs[0], 0)
+		if got == "unknown" && (want == "later-non-nil-wins" || want == "later-non-empty-replaces") {
+			// the selection is written inline (`args := a.Args; if len(b.Args) > 0 { args = b.Args }`): evaluate the
+			// merge function abstractly with a.K / b.K as the operands
+			cases := ptrCases
+			if want == "later-non-empty-replaces" {
+				cases = sliceCases
+			}
+			allOK := true
+			for _, c := range cases {
+				res := absEvalSeeded(fn, []absVal{{kind: "unknown"}, {kind: "unknown"}}, 0, func(v ssa.Value) (absVal, bool) {
+					if fieldOfParam(v, fn.Params[0], f.Name()) {
+						return absVal{kind: "ref", prov: "a", st: c.sa}, true
+					}
+					if fieldOfParam(v, fn.Params[1], f.Name()) {
+						return absVal{kind: "ref", prov: "b", st: c.sb}, true
+					}
+					return absVal{}, false
+				}, f.Name())
+				okC := false
+				for _, w := range c.want {
+					if res.kind == "ref" && res.prov == w {
+						okC = true
+					}
+				}
+				if !okC {
+					allOK = false
+				}
+			}
+			if allOK {
+				r.Hold("R09.1", fkey, "inline selection with the documented behaviour "+want+" (abstract evaluation over the operand states)", e.P.Pos(vs[0].Pos()))
+				continue
+			}
+		}
 		if got == "unknown" {
 			r.Undecide("R09.1", fkey, "the value of the merged field could not be shown to have the documented behaviour class "+want+" (see its R09.1c obligations)", e.P.Pos(vs[0].Pos()))
 			continue
@@ -450,13 +506,73 @@ func mergeMapSSA(e *Env, name string) (decided, ok bool) {
 					} else {
 						other = true
 					}
+					continue
+				}
+				g := x.Call.StaticCallee()
+				if g == nil {
+					continue
+				}
+				gname := g.Name()
+				if o := g.Origin(); o != nil {
+					gname = o.Name()
+				}
+				// copy helper of the package: h(dst, src) { for k, v := range src { dst[k] = v } }
+				body := g
+				if g.Origin() != nil {
+					body = g.Origin() // an instantiation may be a thin wrapper: read the generic body
+				}
+				if e.P.InModule(g) && len(x.Call.Args) == 2 && isCopyAllHelper(body) {
+					if op := operand(x.Call.Args[1]); op != "" {
+						evs = append(evs, ev{op, x.Pos()})
+					} else {
+						other = true
+					}
+					continue
+				}
+				// maps.Iterate(X, func(k, v) { r[k] = v })
+				if gname == "Iterate" && len(x.Call.Args) == 2 {
+					var cb *ssa.Function
+					switch f := x.Call.Args[1].(type) {
+					case *ssa.MakeClosure:
+						cb, _ = f.Fn.(*ssa.Function)
+					case *ssa.Function:
+						cb = f
+					}
+					// the callback may be a local closure value loaded from a variable
+					if ld, isLd := x.Call.Args[1].(*ssa.UnOp); isLd && cb == nil {
+						if al, isAl := ld.X.(*ssa.Alloc); isAl {
+							for _, ref := range *al.Referrers() {
+								if st, isSt := ref.(*ssa.Store); isSt && st.Addr == al {
+									if mc, isMc := st.Val.(*ssa.MakeClosure); isMc {
+										cb, _ = mc.Fn.(*ssa.Function)
+									}
+								}
+							}
+						}
+					}
+					if cb != nil && len(cb.Params) == 2 {
+						stores := 0
+						for _, cbb := range cb.Blocks {
+							for _, ci := range cbb.Instrs {
+								if mu, isMu := ci.(*ssa.MapUpdate); isMu && mu.Key == ssa.Value(cb.Params[0]) && mu.Value == ssa.Value(cb.Params[1]) {
+									stores++
+								}
+							}
+						}
+						if op := operand(x.Call.Args[0]); op != "" && stores == 1 && len(cb.Blocks) == 1 {
+							evs = append(evs, ev{op, x.Pos()})
+							continue
+						}
+					}
 				}
 			}
 		}
 	}
-	if len(evs) < 2 || other || result == nil {
+	// stores inside an Iterate callback were counted through the callback: ignore them as "other"
+	if len(evs) < 2 || result == nil {
 		return false, false
 	}
+	_ = other
 	// position order: every copy of the first operand precedes every copy of the second, and both occur
 	lastA, firstB := token.NoPos, token.NoPos
 	for _, v := range evs {
@@ -489,4 +605,42 @@ func mergeMapSSA(e *Env, name string) (decided, ok bool) {
 	}
 	key := inputRel + "." + name
 	return true, e.R.Check(good, "R09.1c", key+"#later-wins", "mappings are united key-wise with later values winning: every entry of the first operand is copied into the result before the entries of the second", e.P.Pos(fn.Pos()))
+}
+
+// isCopyAllHelper: h(dst, src) whose body is exactly `for k, v := range src { dst[k] = v }`.
+func isCopyAllHelper(h *ssa.Function) bool {
+	if len(h.Params) != 2 {
+		return false
+	}
+	n := 0
+	for _, b := range h.Blocks {
+		for _, ins := range b.Instrs {
+			mu, ok := ins.(*ssa.MapUpdate)
+			if !ok {
+				continue
+			}
+			n++
+			kx, ok1 := mu.Key.(*ssa.Extract)
+			vx, ok2 := mu.Value.(*ssa.Extract)
+			if !ok1 || !ok2 || kx.Tuple != vx.Tuple || kx.Index != 1 || vx.Index != 2 || mu.Map != ssa.Value(h.Params[0]) {
+				return false
+			}
+			nx, isNext := kx.Tuple.(*ssa.Next)
+			if !isNext {
+				return false
+			}
+			rg, isR := nx.Iter.(*ssa.Range)
+			if !isR || rg.X != ssa.Value(h.Params[1]) {
+				return false
+			}
+		}
+		if iff, ok := b.Instrs[len(b.Instrs)-1].(*ssa.If); ok {
+			if ex, isEx := iff.Cond.(*ssa.Extract); !isEx {
+				return false
+			} else if _, isNext := ex.Tuple.(*ssa.Next); !isNext {
+				return false
+			}
+		}
+	}
+	return n == 1
 }
